@@ -82,8 +82,20 @@ func H_Conc() {
 	ctx, cancel := context.WithCancel(context.Background())
 	shared, e := p.CreateScope(ctx)
 	vrt.Assume(e == nil)
-	child, e := shared.CreateScope(nil)
-	vrt.Assume(e == nil)
+	// nochild=1: the shared scope has no child of its own when the operations start
+	// (a scope without children closes along another path)
+	noChild := vrt.Param("nochild", 0) == 2 || vrt.Pick("nochild", 0, vrt.Param("nochild", 0)&1) == 1
+	var child godi.Scope
+	if !noChild {
+		child, e = shared.CreateScope(nil)
+		vrt.Assume(e == nil)
+	}
+
+	// a scope that came and went just before the operations start (whatever a
+	// closed scope leaves behind in the provider is there when they run)
+	if gone, ge := p.CreateScope(nil); ge == nil {
+		gone.Close()
+	}
 
 	kit.YieldInCtor = true
 	kit.YieldInClose = true
@@ -92,6 +104,26 @@ func H_Conc() {
 	for g := 0; g < 2; g++ {
 		for k := 0; k < maxOps; k++ {
 			prog[g] = append(prog[g], vrt.Pick("op"+string(rune('a'+g))+string(rune('0'+k)), 0, numOps-1))
+		}
+	}
+	// opset bounds the operation pairs of a run: 1 = at least one closing
+	// operation (Close of a scope / the provider, cancellation), 2 = none
+	if os := vrt.Param("opset", 0); os != 0 {
+		closing := false
+		for g := 0; g < 2; g++ {
+			for _, op := range prog[g] {
+				if op == opCloseShared || op == opCloseProvider || op == opCancelShared || op == opCloseChild {
+					closing = true
+				}
+			}
+		}
+		vrt.Assume(closing == (os == 1))
+	}
+	if noChild {
+		for g := 0; g < 2; g++ {
+			for _, op := range prog[g] {
+				vrt.Assume(op != opResolveChild && op != opCloseChild)
+			}
 		}
 	}
 	if wv == 2 {
@@ -196,6 +228,38 @@ func H_Conc() {
 	vrt.G2(0)
 	vrt.Quiesce()
 	vrt.Cover("both_done")
+
+	// C13 / C09: a scope handed out by an operation that overlapped the Close of
+	// its parent (or of the provider) is closed by it - or was refused
+	closedProvider, closedShared := false, false
+	for g := 0; g < 2; g++ {
+		for _, r := range res[g] {
+			if r.panicked {
+				continue
+			}
+			switch r.op {
+			case opCloseProvider:
+				closedProvider = true
+			case opCloseShared, opCancelShared:
+				closedShared = true
+			}
+		}
+	}
+	for g := 0; g < 2; g++ {
+		for _, r := range res[g] {
+			if r.scope == nil || r.err != nil {
+				continue
+			}
+			orphan := closedProvider || (closedShared && r.op == opCreateChild)
+			if !orphan {
+				continue
+			}
+			_, ge := r.scope.Get(kit.TypeS[1])
+			vrt.Assert(isDisposed(ge), "C13.scope_survived_close", "operation", r.op, "returned a scope while its parent / the provider was being closed, and that scope is still open afterwards:", ge)
+			vrt.Assert(isDisposed(ge), "C09.scope_survived_close", "operation", r.op, "returned a scope while its parent / the provider was being closed, and that scope is still open afterwards:", ge)
+			vrt.Assert(r.scope.Context().Err() != nil, "C14.orphan_scope_context", "a scope handed out during the Close of its parent keeps a live context")
+		}
+	}
 
 	// per-call obligations (C09 / C13)
 	for g := 0; g < 2; g++ {
@@ -347,6 +411,37 @@ func H_Conc() {
 			}
 		}
 	}
+	// C02: scopes handed out concurrently are scopes of their own: a scoped
+	// registration resolved in each of them (now, sequentially) yields distinct instances
+	if l1 == kit.LScoped {
+		var fresh []*kit.Inst
+		probe := func(sc godi.Scope) {
+			if sc == nil {
+				return
+			}
+			v, err := sc.Get(kit.TypeS[1])
+			if err != nil {
+				return
+			}
+			in := kit.InfoOf(v)
+			if in == nil {
+				return
+			}
+			for _, o := range fresh {
+				vrt.Assert(o != in, "C02.shared_between_scopes", "two scopes alive at the same time hand out one instance of scoped registration 1")
+			}
+			fresh = append(fresh, in)
+		}
+		probe(shared)
+		probe(child)
+		for g := 0; g < 2; g++ {
+			for _, r := range res[g] {
+				if r.err == nil && !r.panicked {
+					probe(r.scope)
+				}
+			}
+		}
+	}
 	// C03: two overlapping resolutions of one transient are two instances
 	for _, ra := range res[0] {
 		for _, rb := range res[1] {
@@ -391,7 +486,9 @@ func H_Conc() {
 		}
 	}
 	kit.YieldInCtor, kit.YieldInClose = false, false
-	child.Close()
+	if child != nil {
+		child.Close()
+	}
 	shared.Close()
 	cancel()
 	p.Close()
